@@ -98,7 +98,7 @@ def generate(rng, tier):
 
 
 def execute(sc, ctx):
-    m = Model()
+    m = Model(seed=20260927)
     shared_ns = {"species": "generic"}      # ONE namespace dict reused by a class factory for several classes
     built = []       # (class object, parent index or None, kind)
     for i, c in enumerate(sc["classes"]):
